@@ -187,13 +187,17 @@ LoadStatus DepsLog::Load(const string& path, State* state, string* err) {
 
   long offset = ftell(f);
   bool read_failed = false;
+  bool torn_size_word = false;
   int unique_dep_record_count = 0;
   int total_dep_record_count = 0;
   for (;;) {
     unsigned size;
-    if (fread(&size, sizeof(size), 1, f) < 1) {
+    size_t size_bytes = fread(&size, 1, sizeof(size), f);
+    if (size_bytes < sizeof(size)) {
       if (!feof(f))
         read_failed = true;
+      else if (size_bytes > 0)
+        torn_size_word = true;  // 1-3 bytes of a record header at EOF.
       break;
     }
     bool is_deps = (size >> 31) != 0;
@@ -290,6 +294,11 @@ LoadStatus DepsLog::Load(const string& path, State* state, string* err) {
   }
 
   fclose(f);
+
+  // A record header torn after 1-3 bytes is not an error, but the stray bytes
+  // must go: records appended behind them would be unreadable.
+  if (torn_size_word && !Truncate(path, offset, err))
+    return LOAD_ERROR;
 
   // Rebuild the log if there are too many dead records.
   int kMinCompactionEntryCount = 1000;
